@@ -144,6 +144,7 @@ func runCKKSRefresh(c *eng.Ctx, cc caseCfg) {
 	if w == nil {
 		return
 	}
+	w.setX(cc)
 	c.Sample(cc)
 	cpIn, n := w.cp, w.cf.Parties
 	cpOut := cpIn
@@ -154,7 +155,7 @@ func runCKKSRefresh(c *eng.Ctx, cc caseCfg) {
 			rt = ring.ConjugateInvariant
 		}
 		var err error
-		cpOut, err = ckks.NewParametersFromLiteral(ckks.ParametersLiteral{LogN: cc.Out.LogN, Q: cc.Out.Q, P: cc.Out.P, Xs: cc.Out.xs(), RingType: rt, LogDefaultScale: cc.Out.LogS})
+		cpOut, err = ckks.NewParametersFromLiteral(ckks.ParametersLiteral{LogN: cc.Out.LogN, Q: cc.Out.Q, P: cc.Out.P, Xs: cc.Out.xs(), Xe: cc.Out.xe(), RingType: rt, LogDefaultScale: cc.Out.LogS})
 		if err != nil {
 			c.Inconclusive("output parameters rejected: " + err.Error())
 			return
@@ -185,7 +186,7 @@ func runCKKSRefresh(c *eng.Ctx, cc caseCfg) {
 			})
 		}
 	}
-	for ctLevel := pIn.MaxLevel(); ctLevel >= 0; ctLevel-- {
+	for _, ctLevel := range w.levels(pIn.MaxLevel()) {
 		for rep := 0; rep < 2; rep++ {
 			useRefresh := sameParams && rep == 0 && ctLevel%2 == 0
 			// choose transform and flags
@@ -211,6 +212,20 @@ func runCKKSRefresh(c *eng.Ctx, cc caseCfg) {
 						dec, enc = false, true
 						batched = false
 					}
+				} else if w.x.On {
+					// conjugate-invariant ring: the flag combinations whose meaning does not depend on the
+					// imaginary parts the protocol attaches to the coefficient vector (every transform used
+					// here maps real parts to real parts): decode+encode, decode only, neither
+					switch w.rnd.N(4) {
+					case 0, 1:
+						dec, enc = true, true
+					case 2:
+						dec, enc = true, false
+					case 3:
+						dec, enc = false, false
+						batched = w.rnd.Bool()
+					}
+					c.Count(fmt.Sprintf("x_conjugate_invariant_flags_dec=%v_enc=%v", dec, enc), 1)
 				} else {
 					dec, enc = true, true
 				}
@@ -283,6 +298,10 @@ func runCKKSRefresh(c *eng.Ctx, cc caseCfg) {
 			}
 			precMin := logBound + uint(3*logSlots) + 40
 			prec := eng.Pick(w.rnd, precMin, max(256, precMin), max(512, precMin))
+			if w.x.Persist {
+				// one encoder precision for (nearly) all rounds, so that the protocol object is reused
+				prec = max(512, (precMin+127)/128*128)
+			}
 			c.Distinct(fmt.Sprintf("ckks-refresh/%s/same%v/L%d/D%d/O%d/slots%d/%s/%v", w.cf.tag(), sameParams, ctLevel, decLevel, outLevel, logSlots, trName, useRefresh), n > 1 || ctLevel < pIn.MaxLevel() || w.cf.Sigma > 4 || tf != nil || !sameParams)
 			c.Count("transform_"+trName, 1)
 			c.Max("max_log_bound", int64(logBound))
@@ -297,17 +316,24 @@ func runCKKSRefresh(c *eng.Ctx, cc caseCfg) {
 			var perr error
 			if !c.Try(entry+".New", func() {
 				if useRefresh {
-					rp, perr = mpckks.NewRefreshProtocol(cpIn, prec, w.fl)
+					rp, perr = cached(w, fmt.Sprintf("ckks-rp/%d", prec), func() (mpckks.RefreshProtocol, error) {
+						return mpckks.NewRefreshProtocol(cpIn, prec, w.fl)
+					})
 					mt = rp.MaskedLinearTransformationProtocol
 				} else {
 					if !sameParams && viaWithParams {
 						// documented alternative: build for the input parameters, then retarget the output side
-						mt, perr = mpckks.NewMaskedLinearTransformationProtocol(cpIn, cpIn, prec, w.fl)
-						if perr == nil {
-							mt = mt.WithParams(cpOut)
-						}
+						mt, perr = cached(w, fmt.Sprintf("ckks-mt-wp/%d", prec), func() (mt mpckks.MaskedLinearTransformationProtocol, perr error) {
+							mt, perr = mpckks.NewMaskedLinearTransformationProtocol(cpIn, cpIn, prec, w.fl)
+							if perr == nil {
+								mt = mt.WithParams(cpOut)
+							}
+							return
+						})
 					} else {
-						mt, perr = mpckks.NewMaskedLinearTransformationProtocol(cpIn, cpOut, prec, w.fl)
+						mt, perr = cached(w, fmt.Sprintf("ckks-mt/%d", prec), func() (mpckks.MaskedLinearTransformationProtocol, error) {
+							return mpckks.NewMaskedLinearTransformationProtocol(cpIn, cpOut, prec, w.fl)
+						})
 					}
 				}
 			}) {
@@ -329,11 +355,18 @@ func runCKKSRefresh(c *eng.Ctx, cc caseCfg) {
 			half := pow2(logBound - 1)
 			good := true
 			for i := 0; i < n && good; i++ {
-				pm := mt
-				if i%2 == 1 {
-					pm = mt.ShallowCopy()
+				var pm mpckks.MaskedLinearTransformationProtocol
+				if useRefresh && w.x.On {
+					// the refresh protocol's own copy constructor and allocator
+					rpi := inst(w, fmt.Sprintf("ckks-rp/%d", prec), i, rp, mpckks.RefreshProtocol.ShallowCopy)
+					pm = rpi.MaskedLinearTransformationProtocol
+					shares[i] = rpi.AllocateShare(decLevel, outLevel)
+				} else {
+					pm = inst(w, fmt.Sprintf("ckks-mt/%v/%v/%d", useRefresh, viaWithParams, prec), i, mt, mpckks.MaskedLinearTransformationProtocol.ShallowCopy)
+					shares[i] = pm.AllocateShare(decLevel, outLevel)
 				}
-				shares[i] = pm.AllocateShare(decLevel, outLevel)
+				w.dirtyPoly(pIn, shares[i].EncToShareShare.Value)
+				w.dirtyPoly(pOut, shares[i].ShareToEncShare.Value)
 				var gerr error
 				if !c.Try(entry+".GenShare", func() {
 					if useRefresh {
@@ -383,6 +416,7 @@ func runCKKSRefresh(c *eng.Ctx, cc caseCfg) {
 					break
 				}
 				e2sPool.add(off)
+				w.ppool("ckks-mt-e2s", i).add(off)
 				// recryption share + crp*s_out,i = e'_i + (LT(M_i) * D/S)(X^gap)
 				y := obs.Centered(rOut, addP(rOut, coef(rOut, shares[i].ShareToEncShare.Value, true), mulS(rOut, crp.Value, true, outKeys.sk[i].Value.Q)))
 				formOK = true
@@ -420,6 +454,7 @@ func runCKKSRefresh(c *eng.Ctx, cc caseCfg) {
 					break
 				}
 				s2ePool.add(off2)
+				w.ppool("ckks-mt-s2e", i).add(off2)
 				e2sPolys[i], s2ePolys[i] = shares[i].EncToShareShare.Value, shares[i].ShareToEncShare.Value
 			}
 			if !good {
@@ -473,6 +508,7 @@ func runCKKSRefresh(c *eng.Ctx, cc caseCfg) {
 					dst = src
 				} else {
 					dst = ckks.NewCiphertext(cpOut, 1, eng.Pick(w.rnd, outLevel, pOut.MaxLevel(), 0))
+					w.dirtyCt(pOut, dst)
 				}
 				var terr error
 				sg := entry + ".Transform"
@@ -604,4 +640,6 @@ func runCKKSRefresh(c *eng.Ctx, cc caseCfg) {
 	}
 	checkFloor(c, "C16|mpckks.MaskedLinearTransformationProtocol.GenShare|e2s", e2sPool, ndIn.Sigma, ndIn.Sigma)
 	checkFloor(c, "C16|mpckks.MaskedLinearTransformationProtocol.GenShare|s2e", s2ePool, ndOut.Sigma, ndOut.Sigma)
+	w.checkPools("ckks-mt-e2s", "C16|mpckks.MaskedLinearTransformationProtocol.GenShare|e2s", ndIn.Sigma, ndIn.Sigma)
+	w.checkPools("ckks-mt-s2e", "C16|mpckks.MaskedLinearTransformationProtocol.GenShare|s2e", ndOut.Sigma, ndOut.Sigma)
 }
